@@ -57,24 +57,29 @@ def xmlLayer : Layer Unit XmlCb where
   step := xmlStep
   finish := fun _ => []
 
-/-- `except expat.ExpatError as e: raise ParseError(str(e), self.filename, e.lineno, e.offset)` -/
+/-- what leaves `_generate` for an exception raised inside it:
+    `except expat.ExpatError as e: raise ParseError(str(e), self.filename, e.lineno, e.offset)`, and the
+    clause of `XMLParser._parse` around every `Parse` call,
+    `except (LookupError, ValueError) as e: if <Expat's error code is UNKNOWN_ENCODING>: raise ParseError(…,
+    self.expat.ErrorLineNumber, self.expat.ErrorColumnNumber)` (a `ParseError` is no `ExpatError` and passes the
+    outer clause). Everything else is not touched. -/
 def xmlHandler : PyExc → Raised
   | .expat l c => .parseError l c
+  | .codec l c => .parseError l c
   | .exc n => .propagate n
   | .base n => .propagate n
 
-/-- a chunk handed out by `source.read()` -/
+/-- a chunk handed out by `source.read()`. A `str` chunk is always handed on: lone surrogates are encoded
+    with `surrogatepass` and rejected by Expat itself (an `ExpatError` item of the batch). -/
 inductive XmlReadG (cb : Type) where
-  | chunk (items : List (Item cb))      -- bytes, or a `str` that encodes to UTF-8: given to `Parse`
-  | unencodable                         -- a `str` holding a lone surrogate: `data.encode('utf-8')` raises
-  | fail (e : PyExc)
+  | chunk (items : List (Item cb))      -- bytes, or a `str` encoded as UTF-8: given to `Parse`
+  | fail (e : PyExc)                    -- `read()` raised
   deriving Repr
 
 abbrev XmlRead := XmlReadG XmlCb
 
 def XmlReadG.toRead {cb : Type} : XmlReadG cb → Read cb
   | .chunk l => .items l
-  | .unencodable => .fail unicodeEncodeError
   | .fail e => .fail e
 
 /-- iterating `XMLParser(source)` -/
@@ -129,7 +134,6 @@ def xmlParseP (reads : List XmlReadP) (close : List (Item (XmlCb × Pos))) : PSt
 
 def XmlReadG.map {α β : Type} (g : α → β) : XmlReadG α → XmlReadG β
   | .chunk l => .chunk (l.map (Item.map g))
-  | .unencodable => .unencodable
   | .fail e => .fail e
 
 /-! ### documents as trees, and the callbacks their traversal makes -/
